@@ -1,6 +1,7 @@
 package main
 
 import (
+	"regexp"
 	"fmt"
 	"go/types"
 	"strings"
@@ -265,6 +266,32 @@ func propC02(c *Ctx) {
 	// error of the handler's fallible calls (the bank send above all) may be dropped
 	c.Rule("C02.R7", func() {
 		errorDiscipline(c, "C02.R7", "ophost.FinalizeTokenWithdrawal", hostHandler(c, "FinalizeTokenWithdrawal"), PO{Params: hParams, Visits: 3})
+	})
+
+	// the paid-claim records survive a genesis round trip under their own bridge: the importer
+	// records every claim of a bridge record under that record's id
+	c.Rule("C02.R8", func() {
+		imp := c.Method(hostKeeper, "Keeper", "InitGenesis")
+		o := c.Ob("C02.R8", "ophost InitGenesis: every imported claim is recorded under the id of the bridge record it belongs to")
+		re := regexp.MustCompile(`data\.Bridges\[\d+\]`)
+		for _, p := range c.Paths(imp, PO{Params: []string{"k", "ctx", "data"}, Visits: 3, NoInline: []string{"Keeper).RecordProvenWithdrawal", "Keeper).SetBridgeConfig", "Keeper).SetOutputProposal", "Keeper).SetTokenPair", "Keeper).SetBatchInfo"}}) {
+			o.Paths++
+			for _, i := range p.Find(func(ev *Event) bool { return ev.Kind == EvCall && isCall(ev, "Keeper).RecordProvenWithdrawal") }) {
+				o.Sites++
+				a := p.Events[i].Call.Args
+				if len(a) < 4 {
+					continue
+				}
+				id, claim := strip(a[2]).Key(), strip(a[3]).Key()
+				bi, bc := re.FindString(id), re.FindString(claim)
+				if bi == "" || bc == "" || bi != bc || id != bi+".BridgeId" || !strings.Contains(claim, bc+".ProvenWithdrawals[") {
+					o.Fail(c.evPos(&p.Events[i]), "claim "+trunc(claim, 100)+" recorded under "+trunc(id, 60), c.Dump(p, i))
+				}
+			}
+		}
+		if o.Sites == 0 {
+			o.Fail(c.W.Pos(imp.Pos()), "no imported claim is recorded within the unrolling bound", nil)
+		}
 	})
 
 	c.Rule("C02.R3", func() {
@@ -744,6 +771,72 @@ func propC05(c *Ctx) {
 		}
 		if o2.Sites == 0 {
 			o2.Fail(c.W.Pos(fn.Pos()), "no OutputProposals.Set reached from ProposeOutput", nil)
+		}
+	})
+
+	// one clock for finality: payout, deletion refusal and the last-finalized query must compare
+	// block time and deadline in the SAME unit (all Unix seconds or all time.Time) - otherwise an
+	// output is final for one of them and not yet final for another inside the boundary second
+	c.Rule("C05.R7", func() {
+		o := c.Ob("C05.R7", "every finality comparison of ophost uses the same time unit")
+		units := map[string][]string{}
+		type tgt struct {
+			fn *ssa.Function
+			po PO
+		}
+		tgts := []tgt{
+			{hostHandler(c, "FinalizeTokenWithdrawal"), hostPO},
+			{c.Method(hostKeeper, "Keeper", "DeleteOutputProposal"), PO{Params: []string{"k", "ctx", "bridgeId", "outputIndex"}}},
+			{c.Method(hostKeeper, "Keeper", "GetLastFinalizedOutput"), PO{Params: []string{"k", "ctx", "bridgeId"}, Callbacks: true}},
+			{c.Method(hostKeeper, "Keeper", "IsFinalized"), PO{Params: []string{"k", "ctx", "bridgeId", "outputIndex"}}},
+		}
+		for _, t := range tgts {
+			for _, p := range c.Paths(t.fn, t.po) {
+				o.Paths++
+				for i := range p.Events {
+					ev := &p.Events[i]
+					if ev.Kind != EvFact {
+						continue
+					}
+					rf, ok := factRel(ev.Cond, ev.Pol)
+					if !ok {
+						continue
+					}
+					x, y := rf.X.Key(), rf.Y.Key()
+					if !strings.Contains(x, "BlockTime(ctx)") {
+						x, y = y, x
+					}
+					if !strings.Contains(x, "BlockTime(ctx)") || !strings.Contains(y, ".L1BlockTime") {
+						continue
+					}
+					o.Sites++
+					u := func(k string) string {
+						if strings.HasPrefix(k, "(time.Time).Unix(") {
+							return "seconds"
+						}
+						if strings.HasPrefix(k, "(time.Time).UnixNano(") || strings.HasPrefix(k, "(time.Time).UnixMilli(") {
+							return "sub-seconds"
+						}
+						return "time.Time"
+					}
+					ux, uy := u(x), u(y)
+					if ux != uy {
+						o.Fail(c.evPos(ev), "finality comparison mixes units: "+ux+" vs "+uy, c.Dump(p, i))
+						continue
+					}
+					units[ux] = append(units[ux], fnShort(t.fn)+" @"+c.evPos(ev))
+				}
+			}
+		}
+		if len(units) > 1 {
+			var parts []string
+			for _, k := range sortedKeys(units) {
+				parts = append(parts, k+": "+units[k][0])
+			}
+			o.Fail("-", "finality is decided in different time units ("+strings.Join(parts, "; ")+"): inside the boundary second an output is final for one and still deletable / unpaid for another", nil)
+		}
+		if o.Sites == 0 {
+			o.Fail("-", "no finality comparison found (floor 1)", nil)
 		}
 	})
 
